@@ -468,9 +468,18 @@ func (w *World) parseVal(tok string) (interface{}, error) {
 	}
 }
 
+// showEntryVal prints the value of an entry that exists: a nil value and a value decoded from null are the
+// same contents
+func showEntryVal(v interface{}) string {
+	if v == nil {
+		return hexs([]byte("null"))
+	}
+	return showVal(v)
+}
+
 func showVal(v interface{}) string {
 	if v == nil {
-		return hexs([]byte("null")) // a nil value and a value decoded from null are the same contents
+		return "nil"
 	}
 	if r, ok := v.(json.RawMessage); ok {
 		return hexs(r)
@@ -643,7 +652,7 @@ func (w *World) Exec(line string) (res Result) {
 		if !found {
 			return ok("v:none")
 		}
-		return ok("v:" + showVal(vp.Elem().Interface()))
+		return ok("v:" + showEntryVal(vp.Elem().Interface()))
 	case "size":
 		t := tree(toks[1])
 		if t == nil {
@@ -669,7 +678,7 @@ func (w *World) Exec(line string) (res Result) {
 			stopAt = atoi(toks[3])
 		}
 		cb := func(k, v interface{}) error {
-			out = append(out, showKey(k)+"="+showVal(v))
+			out = append(out, showKey(k)+"="+showEntryVal(v))
 			if len(out)-1 == stopAt {
 				return mast.ErrIterDone
 			}
@@ -910,7 +919,7 @@ func (w *World) Exec(line string) (res Result) {
 			if !found {
 				return ok("e:none")
 			}
-			return ok("e:" + showKey(k) + "=" + showVal(v))
+			return ok("e:" + showKey(k) + "=" + showEntryVal(v))
 		}
 		if err != nil {
 			return fail(err)
